@@ -31,7 +31,14 @@ namespace Clipper2Lib {
       }
       if (std::abs(io_count) > 1) break;
     }
-    return io_count <= 0;
+    if (io_count == 0)
+    {
+      // path2's location is still equivocal (eg all its vertices
+      // are on path1), so check its midpoint
+      Point64 mp = GetBounds(path2).MidPoint();
+      return PointInPolygon(mp, path1) != PointInPolygonResult::IsOutside;
+    }
+    return io_count < 0;
   }
 
   inline bool GetLocation(const Rect64& rec,
